@@ -10,16 +10,40 @@
   (content <header>)               -> (error badQ) | (some i) | none      parse, [0], then decoder
   (csv ((<cell> ...) ...))         -> (<text> (<row> ...))  csvDumps and csvLoads of it
   (jsonfloat <n> <scale>)          -> (<n'> <scale'>)       what the JSON encoders write for n/10^scale
-  <enc> ::= (<kind> ((<key> <value>) ...))
+  (render (<range> ...))           -> (<wf> <wfRfc> (<code point> ...) <ranges>)   renderHeader of the concrete syntax, its meaning
+                                      <ranges> ::= (ok ((<kind> ((<key> <value>) ...) <q/1000>) ...)) | (error badQ)
+  (qspell <w1> <sign> <int> <frac> <w2>) -> (<wf> (<code point> ...) <value/1000>)   sign: none|plus|minus, frac: none|(some <digits>)
+  (parseq <text>)                  -> (some <q/1000>) | none
+  (header <enc>)                   -> (<code point> ...)    Encoding.header
+  (gateway <ct> <accept>)          -> (ok <encoder> <decoder>) | unsupported | error     header: none | (some <text>)
+  (table <pair> (<column> ...))    -> (<wf> <verdict> <text> <decoded>)    pair: csv | records | columns
+                                      <text>: (<code point> ...) of the csv text, `none` for the JSON pairs
+                                      <decoded>: same | differs | refused     model decode of the model encoding vs the table
+  (csvread <text>)                 -> ((<field> ...) ...)                  the record / field tokeniser of read_csv
+  (infer (<field> ...))            -> (<numbers|bools|texts> (<cell> ...)) type inference of one column
+  (schemas <keyed> (<frame> ...))  -> (<result> ...)      Pandas.Schema.from_frame over the frames of one process
+                                      keyed: items | dtypes; <frame> ::= ((<name> ...) (<dtype> ...) <empty: true|false> [<untypable: true|false>])
+                                      <result> ::= (schema (<name> ...)) | empty-frame | untypable
+  <column> ::= (<name> <int|float|str|bool> (<cell> ...))
+  <cell> ::= (i <int>) | (f <neg: true|false> <n> <scale>) | (t <text>) | (b <true|false>) | null | (inf <neg>)
+  <enc> ::= (<kind> ((<key> <value>) ...))      in answers a text with control characters is (%%codes%% <code point> ...)
+  <range> ::= (<w0> <kind> (<param> ...) <wEnd>)
+  <param> ::= (kv <pre> <w1> <name> <w2> <w3> <value> <quoted: true|false>) | (flag <pre> <w1> <text>)
 -/
 import ForML.Model.Sexp
 import ForML.Model.Codec
+import ForML.Model.CodecHeader
+import ForML.Model.CodecTable
 import ForML.Generated.C19Tables
 open ForML ForML.Codec
 
 def str? (x : Sexp) : Option Str := x.str?.map String.toList
 
-def ofStr (s : Str) : Sexp := .atom (String.ofList s)
+/-- a text as an atom; with control characters (the harness reads the answers in text mode, which would turn a CR into a
+line break) as `(%%codes%% <code point> ...)` -/
+def ofStr (s : Str) : Sexp :=
+  if s.any (fun c => c.toNat < 32 || c.toNat == 127) then .list (.atom "%%codes%%" :: s.map fun c => Sexp.ofNat c.toNat)
+  else .atom (String.ofList s)
 
 def kv? : Sexp → Option (Str × Str)
   | .list [k, v] => do pure (← str? k, ← str? v)
@@ -37,6 +61,84 @@ def ofIdx : Option Nat → Sexp
   | some i => .list [.atom "some", Sexp.ofNat i]
 
 def badQ : Sexp := .list [.atom "error", .atom "badQ"]
+
+def bool? : Sexp → Option Bool
+  | .atom "true" => some true
+  | .atom "false" => some false
+  | _ => none
+
+def param? : Sexp → Option ParamSpec
+  | .list [.atom "kv", pre, w1, name, w2, w3, value, quoted] => do
+    pure (.kv (← str? pre) (← str? w1) (← str? name) (← str? w2) (← str? w3) (← str? value) (← bool? quoted))
+  | .list [.atom "flag", pre, w1, text] => do pure (.flag (← str? pre) (← str? w1) (← str? text))
+  | _ => none
+
+def rangeSpec? : Sexp → Option RangeSpec
+  | .list [w0, kind, .list ps, wEnd] => do pure ⟨← str? w0, ← str? kind, ← ps.mapM param?, ← str? wEnd⟩
+  | _ => none
+
+def ofCodes (s : Str) : Sexp := .list (s.map fun c => Sexp.ofNat c.toNat)
+
+def ofOpts (o : Options) : Sexp := .list (o.map fun (k, v) => .list [ofStr k, ofStr v])
+
+def optStr? : Sexp → Option (Option Str)
+  | .atom "none" => some none
+  | .list [.atom "some", t] => (str? t).map some
+  | _ => none
+
+def val? : Sexp → Option Val
+  | .atom "null" => some .null
+  | .list [.atom "i", i] => i.int?.map .int
+  | .list [.atom "f", neg, n, k] => do pure (.float (← bool? neg) ⟨← n.nat?, ← k.nat?⟩)
+  | .list [.atom "t", t] => (str? t).map .text
+  | .list [.atom "b", b] => (bool? b).map .bool
+  | .list [.atom "inf", neg] => (bool? neg).map .inf
+  | _ => none
+
+def ofVal : Val → Sexp
+  | .null => .atom "null"
+  | .int i => .list [.atom "i", Sexp.ofInt i]
+  | .float neg d => .list [.atom "f", Sexp.ofBool neg, Sexp.ofNat d.n, Sexp.ofNat d.scale]
+  | .text t => .list [.atom "t", ofStr t]
+  | .bool b => .list [.atom "b", Sexp.ofBool b]
+  | .inf neg => .list [.atom "inf", Sexp.ofBool neg]
+
+def kind? : Sexp → Option Kind
+  | .atom "int" => some .int
+  | .atom "float" => some .float
+  | .atom "str" => some .str
+  | .atom "bool" => some .bool
+  | _ => none
+
+def column? : Sexp → Option Column
+  | .list [n, k, .list cells] => do pure ⟨← str? n, ← kind? k, ← cells.mapM val?⟩
+  | _ => none
+
+def ofVerdict : Verdict → Sexp
+  | .same => .atom "same"
+  | .empty => .atom "empty"
+  | .csvRetyped => .atom "csv-retyped"
+  | .csvCR => .atom "csv-cr"
+  | .csvBlankLine => .atom "csv-blank-line"
+  | .jsonRounded => .atom "json-rounded"
+  | .jsonSniffed => .atom "json-sniffed"
+  | .jsonNullObject => .atom "json-null-object"
+
+def decoded (t : Table) (f : Option Frame) : Sexp :=
+  match f with
+  | none => .atom "refused"
+  | some f => if f.isEmpty || f.any (fun c => c.2.isEmpty) then .atom "refused"   -- `Schema.from_frame`: Empty frame
+    else .atom (if (Frame.table f (t.cols.map (·.kind))).same t then "same" else "differs")
+
+def frameSig? : Sexp → Option FrameSig
+  | .list [.list ns, .list ds, e] => do pure ⟨← ns.mapM str?, ← ds.mapM str?, ← bool? e, false⟩
+  | .list [.list ns, .list ds, e, u] => do pure ⟨← ns.mapM str?, ← ds.mapM str?, ← bool? e, ← bool? u⟩
+  | _ => none
+
+def ofSchemaResult : SchemaResult → Sexp
+  | .schema ns => .list [.atom "schema", .list (ns.map ofStr)]
+  | .emptyFrame => .atom "empty-frame"
+  | .untypable => .atom "untypable"
 
 def stepC19 : Sexp → Sexp
   | .list [.atom "parse", h] =>
@@ -90,6 +192,69 @@ def stepC19 : Sexp → Sexp
     match n.nat?, k.nat? with
     | some n, some k => let r := (Dec.mk n k).jsonRender; .list [Sexp.ofNat r.n, Sexp.ofNat r.scale]
     | _, _ => .atom "bad-op"
+  | .list [.atom "render", .list rs] =>
+    match rs.mapM rangeSpec? with
+    | some rs =>
+      let sem : Sexp := match specRanges rs with
+        | .ok xs => .list [.atom "ok", .list (xs.map fun r => .list [ofStr r.kind, ofOpts r.params, Sexp.ofInt r.q])]
+        | .error .badQ => badQ
+      .list [Sexp.ofBool (rs.all RangeSpec.wf), Sexp.ofBool (rs.all RangeSpec.wfRfc), ofCodes (renderHeader rs), sem]
+    | none => .atom "bad-op"
+  | .list [.atom "qspell", w1, sign, int, frac, w2] =>
+    let sign? : Option (Option Bool) := match sign with
+      | .atom "none" => some none
+      | .atom "plus" => some (some false)
+      | .atom "minus" => some (some true)
+      | _ => none
+    match str? w1, sign?, str? int, optStr? frac, str? w2 with
+    | some w1, some sg, some i, some fr, some w2 =>
+      let q : QSpec := ⟨w1, sg, i, fr, w2⟩
+      .list [Sexp.ofBool q.wf, ofCodes q.render, Sexp.ofInt q.value]
+    | _, _, _, _, _ => .atom "bad-op"
+  | .list [.atom "parseq", t] =>
+    match str? t with
+    | some t => Sexp.ofOption Sexp.ofInt (parseQ t)
+    | none => .atom "bad-op"
+  | .list [.atom "header", e] =>
+    match enc? e with
+    | some e => ofCodes e.header
+    | none => .atom "bad-op"
+  | .list [.atom "gateway", ct, acc] =>
+    match optStr? ct, optStr? acc with
+    | some ct, some acc =>
+      match gateway Tables.encoders Tables.decoders ct acc with
+      | .ok e d => .list [.atom "ok", Sexp.ofNat e, Sexp.ofNat d]
+      | .unsupported => .atom "unsupported"
+      | .serverError => .atom "error"
+    | _, _ => .atom "bad-op"
+  | .list [.atom "table", .atom pair, .list cols] =>
+    match cols.mapM column? with
+    | some cols =>
+      let t : Table := ⟨cols⟩
+      match pair with
+      | "csv" => .list [Sexp.ofBool t.wf, ofVerdict t.csvVerdict, ofCodes t.csv, decoded t (csvDecode t.csv)]
+      | "records" => .list [Sexp.ofBool t.wf, ofVerdict (t.jsonVerdict false), .atom "none", decoded t (jsonDecode t.jsonRecords)]
+      | "columns" => .list [Sexp.ofBool t.wf, ofVerdict (t.jsonVerdict true), .atom "none", decoded t (jsonDecode t.jsonColumns)]
+      | _ => .atom "bad-op"
+    | none => .atom "bad-op"
+  | .list [.atom "csvread", t] =>
+    match str? t with
+    | some t => .list ((csvRead t).map fun r => .list (r.map ofStr))
+    | none => .atom "bad-op"
+  | .list [.atom "infer", .list fs] =>
+    match fs.mapM str? with
+    | some fs =>
+      let k := match inferKind fs with | .numbers => "numbers" | .bools => "bools" | .texts => "texts"
+      .list [.atom k, .list ((readColumn fs).map ofVal)]
+    | none => .atom "bad-op"
+  | .list [.atom "schemas", .atom keyed, .list fs] =>
+    match fs.mapM frameSig? with
+    | some fs =>
+      match keyed with
+      | "items" => .list ((runFrames keyItems [] fs).map ofSchemaResult)
+      | "dtypes" => .list ((runFrames keyDtypes [] fs).map ofSchemaResult)
+      | _ => .atom "bad-op"
+    | none => .atom "bad-op"
   | _ => .atom "bad-op"
 
 def main : IO Unit := driverLoop stepC19
